@@ -168,7 +168,7 @@ func cmdCheck(args []string) {
 		sort.Strings(keys)
 		results := make([]*FuncResult, len(keys))
 		done := make(chan int)
-		sem := make(chan struct{}, 8)
+		sem := make(chan struct{}, 12)
 		for i, k := range keys {
 			i, k := i, k
 			go func() {
